@@ -9,7 +9,7 @@
                an unnormalised pair the round trip is false (`fraction_rt_false_unnormalised`).
   * Decimal  — the value *is* its `str()` text; the reader is modelled on positional texts only
                (`decCanon`), which therefore is the side condition.
-  * path     — likewise (`pathCanon`), and the text must lie in the modelled `strload` fragment `pySl?`.
+  * path     — likewise (`pathCanon`); the text of a path is never parsed, so no `strload` condition.
   * pattern  — literal patterns only (`patLiteral`): `re.compile` is not modelled beyond them.
   * bytes    — `um .bytes` is constantly `unsupported` in the model: nothing to prove, left out.
 -/
@@ -520,16 +520,9 @@ example : fracText 7 1 = "7".toList := by decide
 /-- Literal regular expressions: the only patterns whose compilation the model states. -/
 def patLiteral (p : Str) : Bool := p.all (fun c => isAlpha c || isDigit c || c == ' ' || c == '_')
 
-/-- What the modelled `strload` result must be for `umPath` to come back to the text `s`. -/
-def slKeepsPath (s : Str) : Option Val → Bool
-  | some (.str s') => s' == s
-  | some (.path _) => false
-  | some _ => true
-  | none => false
-
-/-- Path texts the executable `umPath` reads back: normalised (`pathCanon`) and inside the modelled
-    `strload` fragment (a plain word, or JSON / literal text that is not itself a string). -/
-def pathWire (s : Str) : Bool := pathCanon s && slKeepsPath s (pySl? s)
+/-- Path texts that are read back: the normalised ones (`pathCanon`); since the text of a path is never
+    parsed, no condition on `strload` is needed. -/
+def pathWire (s : Str) : Bool := pathCanon s
 
 /-- The canonical-spelling condition per scalar kind (trivial for the kinds that need none). -/
 def canonScalar : Scalar → Val → Bool
@@ -551,7 +544,8 @@ theorem hasScalarC_S1 {s : Scalar} {v : Val} (hs : S1 s = true) : hasScalarC s v
 example : decCanon "-12.50".toList = true := by decide
 example : decCanon "1E+3".toList = false := by decide
 example : pathWire "etc".toList = true := by decide
-example : pathWire "a/b".toList = false := by decide      -- outside the modelled `strload`
+example : pathWire "a/b".toList = true := by decide
+example : pathWire "1".toList = true := by decide         -- number look-alikes are paths too
 example : pathCanon "a/b".toList = true := by decide
 example : patLiteral "ab c_1".toList = true := by decide
 
@@ -593,17 +587,9 @@ theorem pattern_leaf_rt (env : Env) (today : Int) {p : Str} (h : patLiteral p = 
 
 theorem umPath_text (env : Env) (today : Int) {s : Str} (h : pathWire s = true) :
     (pyLeaves env today).um .path (.str s) = .ok (.path s) := by
-  simp only [pathWire, Bool.and_eq_true] at h
-  obtain ⟨hc, hk⟩ := h
-  show umPath env _ (.str s) = _
-  unfold umPath
-  have hl : ∀ L : Leaves, L.sl = pySl → load env L (.str s) = pySl s := by intro L hL; simp [load, hL]
-  rw [hl _ rfl, pySl_eq]
-  cases hs : pySl? s with
-  | none => simp [hs, slKeepsPath] at hk
-  | some d =>
-    rw [hs] at hk
-    cases d <;> simp_all [slKeepsPath, isText, decode]
+  simp only [pathWire] at h
+  show umPath env { sl := pySl, um := fun _ _ => .error .unsupported, mar := pyMar env } (.str s) = _
+  simp [umPath, decode, h]
 
 theorem path_leaf_rt (env : Env) (today : Int) {s : Str} (h : pathWire s = true) :
     ∃ m, (pyLeaves env today).mar .path (.path s) = .ok m
@@ -657,10 +643,10 @@ theorem rt_all_false_without_canon :
   cases h2
 
 /-- Outside the canonical spellings the modelled readers are undefined (`unsupported`), they do not
-    disagree: a Decimal in scientific notation, a pattern with an operator, a path with a slash. -/
+    disagree: a Decimal in scientific notation, a pattern with an operator, an unnormalised path. -/
 example : (pyLeaves [] 0).um .decimal (.str "1E+3".toList) = .error .unsupported := by rfl
 example : (pyLeaves [] 0).um .pattern (.str "a+".toList) = .error .unsupported := by rfl
-example : (pyLeaves [] 0).um .path (.str "a/b".toList) = .error .unsupported := by rfl
+example : (pyLeaves [] 0).um .path (.str "a//b".toList) = .error .unsupported := by rfl
 example : (pyLeaves [] 0).um .bytes (.text .bytes "ab".toList) = .error .unsupported := by rfl
 
 end Typelib
